@@ -220,11 +220,57 @@ def judge(pair, script, impl, model):
     return False, "(model and implementation differ; no property violation exhibited on the real code)"
 
 
+def instruction_slice(rng, tier):
+    """'every addressing form of load/store instructions': the instructions that move words between the spaces (data
+    <-> program memory with every program page half pcmhi, loads/stores through every operand form) executed on the real
+    interpreter against the reference model - registers AND the ordered list of memory accesses (byte address, value)."""
+    from checks import alu_common
+    fam, keys, unmod = alu_common.family_scripts(rng, ["movp", "movd", "movpd", "mov_", "mov2", "mova", "movs", "movr", "push", "pop",
+                                                       r"~_(MemImm8|MemImm16|MemR7Imm16|MemR7Imm7s)(_|$)"], 1 if tier == "quick" else 6)
+    scripts = []
+    cap = 12000 if tier == "quick" else 400000
+    if len(fam) > cap:                       # keep every handler represented: stride through the family list
+        step = len(fam) / float(cap)
+        fam = [fam[int(i * step)] for i in range(cap)]
+    for s in fam:
+        scripts.append(s)
+        if rng.chance(1, 2):
+            # program page half, data page and the stack pointer at the places where the spaces meet
+            scripts.append([s[0], "interp poke pcmhi %x" % rng.below(4), "interp poke page %x" % rng.choice([0, 0x80, 0x87, 0xFF]),
+                            "interp poke sp %x" % rng.choice([0, 0x7FFF, 0x8000, 0x87FF, 0x8800, 0xFFFF])] + s[1:])
+    pair = vlib.Pair("plain")
+    bad, a, b, crashes = pair.diff(scripts, model_first=True)
+    out = []
+    from checks import c01
+    for (i, kk, ia, mb) in bad[:3]:
+        s2 = scripts[i][:-1] + [scripts[i][-1].replace("interp step", "interp stepv")]
+        ra, rb, _, _ = pair.run([s2], shards=1)
+        why = c01.field_diff(ra[0][-1], rb[0][-1])
+        w = int(scripts[i][-1].split()[2], 16)
+        out.append(("instruction `%s` (%s; state: %s) reaches memory differently from the reference model: %s"
+                    % (scripts[i][-1], keys[w][0] if keys[w] else "?", " ; ".join(scripts[i][1:-1]) or "plain", why),
+                    {"kind": "correspondence", "script": scripts[i], "impl": a[i], "model": b[i], "correspondence": "interp/step"}, True))
+    return out, {"instruction_cases": len(scripts), "instruction_disagreements": len(bad)}
+
+
 def explore(rng, tier, replay=None):
     scripts = sweep(rng, tier)
     n = 1200 if tier == "quick" else 30000
     for _ in range(n):
         scripts.append(gen(rng, 8 + rng.below(50)))
+    ctx = _explore(scripts)
+    try:
+        iv, istats = instruction_slice(rng, tier)
+        ctx["violations"] = ctx.get("violations", []) + iv
+        ctx["instruction_slice"] = istats
+        ctx["evaluations"] = ctx.get("evaluations", 0) + istats["instruction_cases"]
+    except RuntimeError as ex:
+        ctx["violations"] = ctx.get("violations", []) + [("instruction slice could not run: " + str(ex)[-300:],
+                                                          {"kind": "error", "error": str(ex)[-2000:]}, False)]
+    return ctx
+
+
+def _explore(scripts):
     return corr.explore(PROP, scripts, judge=judge, signature=signature, inspect=inspect,
                         rule="sweeps: a stride over all 0x40000 word cells written through each of {ProgramWrite, DataWriteA32, raw "
                              "pointer, DataWrite, DataWrite with bypass} and read back through every view on the real code "
